@@ -22,6 +22,8 @@ TEMPLATES = {
     "L2": [("A", 7, None, False), ("B", None, None, False)],
     "L3": [("A", 7, None, False), ("B", None, 9, False), ("C", None, None, False), ("D", None, None, True)],
     "L4": [("A", None, 5, False), ("B", 6, 7, False), ("C", None, None, False), ("D", None, 250, False)],
+    "L8": [("A", 200, None, False), ("B", None, None, False), ("C", None, 2, False), ("D", None, None, True), ("E", None, None, False), ("F", 9, 250, False),
+           ("G", None, None, False), ("H", None, 77, False), ("I", 0, None, False)],
     "L5": [("A", None, None, True), ("B", None, None, False), ("C", 255, None, False), ("D", None, None, False), ("E", None, 100, False), ("F", 0, None, False)],
 }
 
@@ -119,7 +121,7 @@ def main():
     report["lifted_sizes"] = sorted(mods)
     if lifted == 0:
         out.append("// nothing lifted: the kernel is absent from the expansion")
-    for n in range(1, 6):
+    for n in (1, 2, 3, 4, 5, 8):
         if n not in mods:
             # keep the harness crate compiling; the driver reports the problem
             out.append("pub mod n%d {\n\tpub const fn search_for_invalid_index(_a: &[(usize, &'static str); %d]) -> (bool, usize) { (false, 0) }\n"
